@@ -10,7 +10,8 @@
 From Coq Require Import List NArith Bool.
 From SV Require Import lib.Bytes model.Graph model.GraphDump model.GraphInv model.Commute model.Dispatch
                        proofs.CommuteProofs proofs.CommuteDefine proofs.CommuteSched
-                       proofs.CommuteComplete proofs.CommuteCycle.
+                       proofs.CommuteComplete proofs.CommuteCycle
+                       model.CommuteBuild proofs.CommuteBuild.
 From SV Require lib.Closure.
 From SV Require model.Claims proofs.ClaimsProofs.
 From SV Require Import proofs.CommuteText.
@@ -488,3 +489,165 @@ Theorem C02_conflict_text_reachable :
     err_text (Claims.run gm false gr st [creq_req A; creq_req B]) =
     err_text (Claims.run gm false gr st [creq_req B; creq_req A]).
 Proof. exact conflict_text_reachable. Qed.
+
+(* ---- 9. whole builds: state-dependent guards, confluence, hazard classes ---------------------- *)
+
+(* The class arguments above (Forall C l) cannot say "the defined label is new" or "no stale node is
+   supplied": those are properties of the STATE a request meets.  guarded G l s (model/CommuteBuild.v):
+   every transaction of the run l satisfies the boolean guard G in the state it meets;
+   fine G l s = all_ok l s && guarded G l s.
+
+   Generic lifting 1 (clause 1 of C02 separated from clause 2).  From RESULT congruence and the pair
+   statement in exactly the shape the pair theorems of section 1 have ("accepted in both orders =>
+   equivalent graphs"): if every reordering of a build (swaps of transactions of R-related pairs) is
+   accepted and guarded, ALL reorderings end in equivalent states.  Induction on the swap derivation. *)
+Theorem C02_confluence_from_pairs_generic :
+  forall (E : st -> st -> Prop) (P : st -> Prop) (R : op -> op -> Prop) (G : op -> st -> bool),
+    (forall s, E s s) ->
+    (forall a b c, E a b -> E b c -> E a c) ->
+    (forall o s, P s -> P (apply_op s o)) ->
+    (forall o s s', P s -> P s' -> E s s' -> G o s = true -> G o s' = true ->
+                    okb o s = true -> okb o s' = true -> E (apply_op s o) (apply_op s' o)) ->
+    (forall a b s, R a b -> P s ->
+                   G a s = true -> G b (apply_op s a) = true -> G b s = true -> G a (apply_op s b) = true ->
+                   accepted2 a b s = true -> accepted2 b a s = true ->
+                   E (apply_op (apply_op s a) b) (apply_op (apply_op s b) a)) ->
+    forall l1 l2 s, swaps R l1 l2 -> P s -> (forall l, swaps R l1 l -> fine G l s = true) ->
+                    E (run_ops l1 s) (run_ops l2 s).
+Proof. exact accepted_swaps_sound. Qed.
+
+(* Generic lifting 2 (both clauses).  From congruence and the FORWARD diamond on guarded accepted
+   pairs (if a then b is accepted and guarded, so is b then a, with an equivalent result): if ONE
+   schedule is accepted and guarded, every reordering is accepted, guarded and ends in an equivalent
+   state.  With G = hazard_free (below) this is the shape of the statement that excludes exactly the
+   known non-commuting classes by a hypothesis the model decides; its two premises are not proved for
+   the whole alphabet (amend_step, completions with outputs: design.d/C02.md). *)
+Theorem C02_confluence_guarded_generic :
+  forall (E : st -> st -> Prop) (P : st -> Prop) (R : op -> op -> Prop) (G : op -> st -> bool),
+    (forall s, E s s) ->
+    (forall a b c, E a b -> E b c -> E a c) ->
+    (forall o s, P s -> P (apply_op s o)) ->
+    (forall o s s', P s -> P s' -> E s s' -> G o s = true -> okb o s = true ->
+                    G o s' = true /\ okb o s' = true /\ E (apply_op s o) (apply_op s' o)) ->
+    (forall a b s, R a b -> P s ->
+                   G a s = true -> okb a s = true -> G b (apply_op s a) = true -> okb b (apply_op s a) = true ->
+                   G b s = true /\ okb b s = true /\ G a (apply_op s b) = true /\ okb a (apply_op s b) = true /\
+                   E (apply_op (apply_op s a) b) (apply_op (apply_op s b) a)) ->
+    forall l1 l2, swaps R l1 l2 -> forall s, P s -> fine G l1 s = true ->
+                  fine G l2 s = true /\ E (run_ops l1 s) (run_ops l2 s).
+Proof. exact guarded_swaps_sound. Qed.
+
+(* INSTANTIATED for whole runs that mix static declarations and define_step requests of NEW steps
+   (decl_guard: the issuer is an attached step; static: duplicate-free paths; define: fresh_define_b =
+   the label is new in the state the request meets, path lists duplicate free and pairwise disjoint,
+   no (re)created row BUILT).  The requests may overlap arbitrarily: a source one step supplies as an
+   input and another declares static, an output of one new step that is an input of another, stale
+   outputs taken over.  From ANY state with the core invariant of C09 (inv_core_b: preserved by every
+   operation whatsoever, C09_core_inv_preserved), for ANY two interleavings of the same per-step
+   sequences: if every interleaving is accepted and meets fresh states (the build succeeds under
+   every schedule), all interleavings end in graphs that agree on every look-up -- creators,
+   detached flags, file states and hashes, step rows, edges, stored step hashes, env rows.
+   Unbounded in the number of steps, requests and paths.  Not covered: clause 2 (that acceptance
+   itself is schedule independent) for define_step, amend_step, completions. *)
+Theorem C02_successful_declaration_builds_confluent_partial :
+  forall (l1 l2 : list op) (s : st),
+    inv_core_b s = true -> all_issued l1 -> all_issued l2 -> same_projections l1 l2 ->
+    (forall l, swaps different_issuers l1 l -> fine decl_guard l s = true) ->
+    st_equiv (run_ops l1 s) (run_ops l2 s).
+Proof. exact decl_interleavings_confluent. Qed.
+
+(* ... for builds of the abstract scheduler (model/Dispatch.v): any two settings of job slots,
+   resource capacity, eligibility test and durations *)
+Theorem C02_dispatch_independent_declarations_partial :
+  forall (jobs : list job) (s : st) J1 cap1 elig1 tr1 J2 cap2 elig2 tr2,
+    inv_core_b s = true -> wf_jobs jobs ->
+    build_trace J1 cap1 elig1 jobs tr1 -> build_trace J2 cap2 elig2 jobs tr2 ->
+    (forall l, swaps different_issuers tr1 l -> fine decl_guard l s = true) ->
+    st_equiv (run_ops tr1 s) (run_ops tr2 s).
+Proof. exact build_graph_confluent_decls. Qed.
+
+(* result congruence of define_step for a new label (the ingredient that was missing): two
+   characterised results from equivalent states are equivalent *)
+Theorem C02_define_step_result_congruent :
+  forall c L inp env out vol nd s t s' t',
+    st_equiv s t -> define_spec c L inp env out vol nd s s' -> define_spec c L inp env out vol nd t t' ->
+    st_equiv s' t'.
+Proof. exact define_cong. Qed.
+
+Theorem C02_fresh_define_b_sound :
+  forall L inp out vol s, fresh_define_b L inp out vol s = true -> fresh_define L inp out vol s.
+Proof. exact fresh_define_b_sound. Qed.
+
+(* non-vacuity: the example build of model/CommuteBuild.v.  Two plan steps a, b run under the boot
+   plan; a declares the source x and defines c : x -> y; b defines d : x, y -> z and declares the
+   source w (x is an input of both new steps and declared static by a; y is an output of c and an
+   input of d).  The universally quantified hypothesis holds: EVERY reordering of the sequential run
+   is one of the six interleavings (swaps_closed), all six are accepted and fresh; the scheduler
+   produces the sequential run under -j1 and the state has the invariant.  Hence the theorem applies
+   to all 6 x 6 pairs; the last conjunct shows the conclusion on the canonical dumps. *)
+Example C02_build_example :
+  let s := run_ops xb_boot (init_st 3) in
+  inv_core_b s = true /\ inv_b s = true /\ wf_jobs xb_jobs /\
+  build_trace 1 2 (fun _ _ => true) xb_jobs [xb_a1; xb_a2; xb_b1; xb_b2] /\
+  (forall l, swaps different_issuers [xb_a1; xb_a2; xb_b1; xb_b2] l -> fine decl_guard l s = true) /\
+  (forall l, In l xb_all -> st_equiv (run_ops [xb_a1; xb_a2; xb_b1; xb_b2] s) (run_ops l s)) /\
+  forallb (fun l => guarded hazard_free l s) xb_all = true /\
+  forallb (fun l => st_equivb (run_ops [xb_a1; xb_a2; xb_b1; xb_b2] s) (run_ops l s)) xb_all = true.
+Proof.
+  cbv zeta.
+  assert (HF := xb_every_reordering_fine).
+  split; [vm_compute; reflexivity|]. split; [vm_compute; reflexivity|].
+  split.
+  { split; [repeat constructor | repeat constructor; cbn; intros H; repeat (destruct H as [H|H]; try discriminate); contradiction]. }
+  split.
+  { apply (sequential_build 1 2 xb_jobs); [auto | repeat constructor; cbn; discriminate]. }
+  split; [exact HF|].
+  split.
+  { intros l Hl. apply decl_runs_confluent; [vm_compute; reflexivity | | exact HF].
+    cbn [xb_all In] in Hl.
+    assert (S1 : swaps different_issuers [xb_a1; xb_a2; xb_b1; xb_b2] [xb_a1; xb_b1; xb_a2; xb_b2])
+      by (apply (sw_swap different_issuers [xb_a1] xb_a2 xb_b1 [xb_b2]); reflexivity).
+    assert (S2 : swaps different_issuers [xb_a1; xb_b1; xb_a2; xb_b2] [xb_a1; xb_b1; xb_b2; xb_a2])
+      by (apply (sw_swap different_issuers [xb_a1; xb_b1] xb_a2 xb_b2 []); reflexivity).
+    assert (S3 : swaps different_issuers [xb_a1; xb_b1; xb_a2; xb_b2] [xb_b1; xb_a1; xb_a2; xb_b2])
+      by (apply (sw_swap different_issuers [] xb_a1 xb_b1 [xb_a2; xb_b2]); reflexivity).
+    assert (S4 : swaps different_issuers [xb_b1; xb_a1; xb_a2; xb_b2] [xb_b1; xb_a1; xb_b2; xb_a2])
+      by (apply (sw_swap different_issuers [xb_b1; xb_a1] xb_a2 xb_b2 []); reflexivity).
+    assert (S5 : swaps different_issuers [xb_b1; xb_a1; xb_b2; xb_a2] [xb_b1; xb_b2; xb_a1; xb_a2])
+      by (apply (sw_swap different_issuers [xb_b1] xb_a1 xb_b2 [xb_a2]); reflexivity).
+    destruct Hl as [<-|[<-|[<-|[<-|[<-|[<-|[]]]]]]].
+    - apply sw_refl.
+    - exact S1.
+    - eapply sw_trans; eassumption.
+    - eapply sw_trans; eassumption.
+    - eapply sw_trans; [exact S1|]. eapply sw_trans; eassumption.
+    - eapply sw_trans; [exact S1|]. eapply sw_trans; [exact S3|]. eapply sw_trans; eassumption. }
+  split; vm_compute; reflexivity.
+Qed.
+
+(* ---- 9'. which pairs do NOT commute: the hazard classes ---------------------------------------- *)
+
+(* hazards o s (model/CommuteBuild.v) lists the circumstances under which a transaction of a running
+   step is known not to commute with transactions of other running steps; each is a boolean on
+   (transaction, state):
+     HzStaleVolatileInput (22)  an input is supplied that is a STALE node (detached, still owned) whose
+                                row is VOLATILE                                          -- D22
+     HzStaleWiredInput (23)     an input is supplied that is a stale node which still has its incoming
+                                edge from the stale producer                             -- D23
+     HzRecycle (24)             define_step on a label whose node exists                 -- D24
+     HzDetachedIssuer (1)       the issuer is detached (its creator is being re-run)
+   Each refutation witness of section 1' is flagged with exactly its own class (first component: the
+   request of the racing step, second: the other request, third: the both-orders verdict 3 =
+   DIFF-SUCCESS, 2 = DIFF-GRAPH); hash result versus declaration of the same path has no issuer and
+   converges (section 2).  The E2 oracle evaluates the same classification on the real Workflow and
+   reports any non-commuting pair of hazard-free requests. *)
+Example C02_hazard_classes_separate_the_witnesses :
+  hazard_case 3 w_stale_volatile_input w_stale_volatile_input_r1 w_stale_volatile_input_r2 = ([22], [], 3) /\
+  hazard_case 3 w_stale_output_cycle w_stale_output_cycle_r1 w_stale_output_cycle_r2 = ([23], [], 3) /\
+  hazard_case 3 w_recycle_subtree w_recycle_subtree_r1 w_recycle_subtree_r2 = ([24], [], 3) /\
+  hazard_case 3 w_detached_creator_static_static w_detached_creator_static_static_r1
+                w_detached_creator_static_static_r2 = ([1], [], 3) /\
+  hazard_case 3 w_stale_partial_recycle w_stale_partial_recycle_r1 w_stale_partial_recycle_r2 = ([24], [23], 2) /\
+  hazard_case 3 w_confirm_vs_static_same_path w_confirm_vs_static_same_path_r1
+                w_confirm_vs_static_same_path_r2 = ([], [], 2).
+Proof. vm_compute. repeat split; reflexivity. Qed.
